@@ -221,8 +221,8 @@ def coq_eval(pid, header, terms, shard=250, timeout=1500, use_digest=False, tag=
             f.write("Definition results : list (list Z) := [%s].\n" %
                     "; ".join("c%d" % n for n in range(len(shards[k]))))
             f.write("Eval vm_compute in results.\n")
-        rc, out, err = sh(["timeout", str(timeout), "coqc", "-noglob", "-Q", COQ, "MiniMcmc",
-                           "-w", "none", path], cwd=casedir, timeout=timeout + 60)
+        rc, out, err = sh("ulimit -s unlimited 2>/dev/null; exec timeout %d coqc -noglob -Q %s MiniMcmc -w none %s" % (timeout, COQ, path),
+                          cwd=casedir, timeout=timeout + 60)
         if rc != 0:
             raise RuntimeError("coqc failed on %s:\n%s" % (path, (out + err)[-3000:]))
         r = parse_coq_lists(out)
@@ -324,6 +324,8 @@ def z(v):
 
 
 def zlist(vs):
+    if len(vs) > 1500:      # very long list literals overflow coqc's parser stack: build them by concatenation
+        return "(" + " ++ ".join(zlist(vs[i:i + 1500]) for i in range(0, len(vs), 1500)) + ")"
     return "[" + "; ".join(z(v) for v in vs) + "]"
 
 
